@@ -480,6 +480,67 @@ def r1_9(ctx: Ctx) -> RuleResult:
                        construct=f"{cname}.{p} stored as {short(e)}")
             else:
                 rr.ok(init.loc(stores[0]), f"{cname}: `{p}` is stored unchanged ({len(samples)} values folded)")
+    # the parser hands the written bounds to the selector: abstract execution of Parser.parse_slice on a model
+    # token stream (rules/model.py); the constructor must receive the numbers that the three slice tokens spell
+    from sa.peval import UNKNOWN
+
+    from .model import MObj
+    from .model import Model
+
+    received: List[Dict[str, object]] = []
+
+    def hook(e: ast.Call, a: List[object], env: Dict[str, object], ex) -> object:  # type: ignore[no-untyped-def]
+        if callee_name(e) == "SliceSelector":
+            received.append({k.arg: ex.value(k.value, env) for k in e.keywords if k.arg})
+            return MObj(model, "SliceSelector", {})
+        return None
+
+    model = Model(ctx, "R1.9", hook)
+
+    class _Stream(MObj):
+        def __init__(self, toks: List[MObj]) -> None:
+            super().__init__(model, "TokenStream", {})
+            self.toks = toks
+            self.pos = 0
+
+        def _at(self, i: int) -> object:
+            return self.toks[i] if 0 <= i < len(self.toks) else UNKNOWN
+
+        def peval_getattr(self, name: str) -> object:
+            if name == "current":
+                return self._at(self.pos)
+            if name == "peek":
+                return self._at(self.pos + 1)
+            return UNKNOWN
+
+        def peval_call(self, method: str, args: List[object], kwargs: Dict[str, object]) -> object:
+            if method == "next_token":
+                t = self._at(self.pos)
+                self.pos += 1
+                return t
+            if method in ("expect", "expect_peek"):
+                return None
+            return UNKNOWN
+
+    ps = ctx.repo.require_func("Parser.parse_slice")
+    parser_obj = MObj(model, "Parser", {"env": UNKNOWN})
+    for triple in (("1", "3", "0"), ("", "", ""), ("-1", "", "-1"), ("0", "2", "2"), ("", "5", "")):
+        del received[:]
+        stream = _Stream([MObj(model, "Token", {"value": v, "kind": UNKNOWN}) for v in triple])
+        model.call(parser_obj, "parse_slice", [stream])
+        if len(received) != 1:
+            raise AnalysisError(f"R1.9: the abstract execution of Parser.parse_slice on the slice `{':'.join(triple)}` does not "
+                                f"construct one SliceSelector ({len(received)})")
+        want = [int(v) if v else None for v in triple]
+        got = [received[0].get(k, "<missing>") for k in ("start", "stop", "step")]
+        ok = all((g == w and type(g) is type(w)) or (k == 2 and w is None and g in (None, 1)) for k, (g, w) in enumerate(zip(got, want)))
+        if ok:
+            rr.ok(ps.loc(), f"parse_slice: `{':'.join(triple)}` is handed to the selector as {got}")
+        else:
+            rr.bad(ps, ps.node, f"the slice `{':'.join(triple)}` is handed to SliceSelector as start, stop, step = {got} instead of {want}"
+                   + (": an explicit step of 0 selects nothing (RFC 9535 2.3.4.2.2)" if triple[2] == "0" else ""),
+                   construct=f"parse_slice: {':'.join(triple)} -> {got}")
+            break
     return rr
 
 
@@ -569,7 +630,7 @@ def r1_11(ctx: Ctx) -> RuleResult:
 def r1_12(ctx: Ctx) -> RuleResult:
     """The descendant shorthand `..name` spells every name whose first character RFC 9535 allows (ALPHA, `_`,
     non-ASCII); the documented departure is reserved *words* only."""
-    rr = RuleResult("R1.12", "the descendant shorthand admits every RFC first character", floor=1)
+    rr = RuleResult("R1.12", "the descendant shorthand admits every RFC first character", floor=20)
     lex = ctx.lexer
     where = lex.compile_fn.loc()
     for c, label in (("a", "ALPHA"), ("Z", "ALPHA"), ("_", "`_`"), ("\u00e9", "%x80-D7FF"), ("\U0001f600", "%x10000-10FFFF")):
@@ -581,7 +642,85 @@ def r1_12(ctx: Ctx) -> RuleResult:
             rr.bad(lex.compile_fn, lex.compile_fn.node,
                    f"`$..{name}` (first character {label}) is lexed as {[k for k, _ in got]}: the descendant shorthand cannot "
                    "spell this name although it is not a reserved word", construct=f"descendant shorthand `..{label}`")
+    # a name that merely *starts* with a reserved word is not reserved, whatever follows the word
+    # (the word-boundary of the keyword rules must see non-ASCII letters as letters)
+    bad_words = []
+    for word in ("in", "or", "and", "not", "true", "false", "null", "nil", "none", "contains", "undefined", "missing"):
+        for tail in ("x", "\u00e9", "\u00f0"):
+            name = word + tail
+            got = _name_tokens(lex.classify("$.." + name))
+            if [k for k, _ in got] == ["ROOT", "DDOT", "NAME"] and got[-1][1] == name:
+                rr.ok(where, f"`$..{name}` is the name {name!r}")
+            else:
+                bad_words.append((name, [k for k, _ in got]))
+    if bad_words:
+        name, kinds = bad_words[0]
+        ascii_only = all(not n[-1].isascii() for n, _ in bad_words)
+        rr.bad(lex.compile_fn, lex.compile_fn.node,
+               f"`$..{name}` is lexed as {kinds} ({len(bad_words)} such names): a name that starts with a reserved word is cut after "
+               f"the word{' when a non-ASCII letter follows (the keyword boundary is ASCII-only)' if ascii_only else ''}; it is not a reserved word",
+               construct="descendant shorthand: reserved word followed by " + ("a non-ASCII letter" if ascii_only else "a letter"))
     return rr
 
 
-RULES = [r1_1, r1_2, r1_3, r1_4, r1_5, r1_6, r1_7, r1_8, r1_9, r1_10, r1_11, r1_12]
+def r1_13(ctx: Ctx) -> RuleResult:
+    """A wildcard applies to every array and object, a slice with a non-zero step to every array: the only
+    reasons to pass over an input node are the ones RFC 9535 gives (wrong kind of value, zero step).  The loop
+    body of each resolver is partially evaluated under `the node is an array` / `is an object`; a path that
+    leaves the iteration before reaching the statement that yields the children - under a test the assumptions
+    do not decide - passes over nodes the RFC selects from."""
+    from sa.peval import Explorer
+
+    from .common import isinstance_classes
+
+    rr = RuleResult("R1.13", "wildcard and slice pass over a node only for its kind (or a zero step)", floor=6)
+    cases = [("SliceSelector", ("array",)), ("WildSelector", ("array", "object"))]
+    for cname, kinds in cases:
+        cls = ctx.repo.require_class("jsonpath.selectors." + cname)
+        for mname in ("resolve", "resolve_async"):
+            fn = cls.methods.get(mname)
+            if fn is None:
+                raise AnalysisError(f"R1.13: {cname}.{mname} not found")
+            loops = [n for n in fn.node.body if isinstance(n, (ast.For, ast.AsyncFor))]
+            if len(loops) != 1 or not isinstance(loops[0].target, ast.Name):
+                raise AnalysisError(f"R1.13: {cname}.{mname} is no longer one loop over the input nodes")
+            node_obj = loops[0].target.id + ".obj"
+            for kind in kinds:
+                def oracle(t: ast.expr, env: dict, kind: str = kind) -> Optional[bool]:  # type: ignore[type-arg]
+                    ic = isinstance_classes(t)
+                    if ic is not None and ic[0] == node_obj:
+                        names = set(ic[1])
+                        if names <= {"str", "bytes"}:
+                            return False
+                        if kind == "array":
+                            if names & {"Sequence", "list", "MutableSequence"}:
+                                return True
+                            if names <= {"Mapping", "dict", "MutableMapping"}:
+                                return False
+                        else:
+                            if names & {"Mapping", "dict", "MutableMapping"}:
+                                return True
+                            if names <= {"Sequence", "list", "MutableSequence", "str"}:
+                                return False
+                    if isinstance(t, ast.Compare) and len(t.ops) == 1 and path_of(t.left) == "self.slice.step" and isinstance(
+                            t.comparators[0], ast.Constant) and t.comparators[0].value == 0:
+                        return isinstance(t.ops[0], ast.NotEq)  # the step is not zero
+                    return None
+
+                ex = Explorer(ctx.folder, fn, oracle)
+                ex.block(list(loops[0].body), {})
+                early = [(k, n) for (k, n, _v), env in zip(ex.outcomes, ex.envs) if k in ("continue", "break", "return") and not env.get("$yield")]
+                if not early:
+                    rr.ok(fn.loc(), f"{cname}.{mname}: every {kind} reaches the statement that yields its children")
+                    continue
+                k, n = early[0]
+                from .common import path_conditions
+
+                conds = [short(t) if b else f"not ({short(t)})" for t, b in path_conditions(fn.node, n) if oracle(t, {}) is None]
+                rr.bad(fn, n, f"{cname}.{mname} passes over an {kind} when `{' and '.join(conds) or '?'}`: RFC 9535 selects from every "
+                       f"{kind} ({'with a non-zero step' if cname == 'SliceSelector' else 'all its children'}); e.g. `$[5::-1]` starts at the "
+                       "last element when 5 is beyond the end", construct=f"{cname}.{mname}: {kind} skipped when {' and '.join(conds) or '?'}")
+    return rr
+
+
+RULES = [r1_1, r1_2, r1_3, r1_4, r1_5, r1_6, r1_7, r1_8, r1_9, r1_10, r1_11, r1_12, r1_13]
